@@ -10,7 +10,7 @@ let table : (string * schema) list = [
   "UnitInterval", unitInterval; "Relay", relay; "Relays", relays; "PoolMetadata", poolMetadata;
   "ProtocolVersion", protocolVersion; "ExUnits", exUnits; "ExUnitPrices", exUnitPrices; "Nonce", nonce;
   "MoveInstantaneousReward", moveInstantaneousReward; "Certificate", certificate; "Certificates", certificates;
-  "Assets", assets; "MultiAsset", multiAsset; "Value", value; "MintAssets", mintAssets; "Mint", mint;
+  "Assets", assets; "MultiAsset", multiAsset; "Value", value; "Mint", mint;
   "Withdrawals", withdrawals; "Voter", voter; "GovernanceActionId", governanceActionId;
   "VotingProcedure", votingProcedure; "VotingProcedures", votingProcedures; "Costmdls", costmdls;
   "PoolVotingThresholds", poolVotingThresholds; "DRepVotingThresholds", dRepVotingThresholds;
@@ -75,7 +75,7 @@ let coll_len (lo : int) (size : int) : int =
   | 7 -> if size >= 4 then max lo 24 else max lo 2
   | 8 -> if size >= 5 then max lo 25 else max lo 1
   | _ -> max lo (below 5)
-let is_empty_v = function VList [] -> true | VMap [] -> true | _ -> false
+let is_empty_v = is_empty_val
 let cmp_bytes (a : n list) (b : n list) : int = compare (List.map int_of_n a) (List.map int_of_n b)
 
 let rec gen (s : schema) (size : int) : val0 =
@@ -85,9 +85,7 @@ let rec gen (s : schema) (size : int) : val0 =
   | SNint -> VNeg (n_of_bz (gen_uint 64))
   | SBytes (lo, hi) ->
     let lo = int_of_n lo and hi = (try int_of_n hi with _ -> max_int) in
-    if lo = 29 && hi = 57 then VBytes (gen_address ())
-    else if lo = 29 && hi = 29 then VBytes (gen_reward_address ())
-    else begin
+    begin
       let hi' = min hi (lo + 300) in
       let len = match below 6 with 0 -> lo | 1 -> hi' | 2 -> min hi' (max lo 24) | 3 -> min hi' (max lo 23) | _ -> lo + below (hi' - lo + 1) in
       VBytes (gen_bytes len)
@@ -113,11 +111,14 @@ let rec gen (s : schema) (size : int) : val0 =
     let (_, fs) = List.nth l i in VVar (nat_of_int i, List.map (fun f -> gen f (size - 1)) (slist_to_list fs))
   | SArrOf (lo, s') -> let n = coll_len (int_of_n lo) size in VList (List.init n (fun _ -> gen s' (size - 2)))
   | SSetOf s' -> let n = coll_len 0 size in VList (dedup s' (List.init n (fun _ -> gen s' (size - 2))))
-  | SMapOf (lo, sorted, k, v) ->
+  | SMapOf (lo, ord, k, v) ->
     let n = coll_len (int_of_n lo) size in
     let l = List.init n (fun _ -> (gen k (size - 2), gen v (size - 2))) in
     let l = dedup_keys k l in
-    let l = if sorted then List.sort (fun (a, _) (b, _) -> cmp_bytes (enc k a) (enc k b)) l else l in
+    let l = match ord with
+      | KInsertion -> l
+      | KBytewise -> List.sort (fun (a, _) (b, _) -> cmp_bytes (enc k a) (enc k b)) l
+      | KRewardAddr -> List.sort (fun (a, _) (b, _) -> cmp_bytes (reward_sort_key (enc k a)) (reward_sort_key (enc k b))) l in
     VMap l
   | SNullable s' -> if below 3 = 0 then VNull else gen s' size
   | STag (_, s') -> gen s' size
@@ -129,6 +130,17 @@ let rec gen (s : schema) (size : int) : val0 =
     let (_, s') = List.nth l i in VAlt (nat_of_int i, gen s' (size - 1))
   | SArrAny s' -> let n = coll_len 0 size in
     VAlt (nat_of_int (below 2), VList (List.init n (fun _ -> gen s' (size - 2))))
+  | SNamed (id, s') ->
+    let id = int_of_n id in
+    if id = 1 then VBytes (gen_address ())
+    else if id = 2 then VBytes (gen_reward_address ())
+    else begin
+      (* rejection sampling into the writer image (Coq predicate writer_form) *)
+      let v = ref (gen s' size) in
+      let tries = ref 0 in
+      while not (writer_form (n_of_int id) !v) && !tries < 50 do v := gen s' (max size 1); incr tries done;
+      !v
+    end
   | SBBytes -> let len = (match below 8 with 0 -> 0 | 1 -> 1 | 2 -> 63 | 3 -> 64 | 4 -> 65 | 5 -> 128 | 6 -> 129 + below 100 | _ -> below 64) in
     VBytes (gen_bytes len)
 and dedup s' l =
@@ -162,13 +174,21 @@ let run_mode () = run_driver (fun toks impl ->
      | Some s ->
        let bs = bytes_of_hex hexs in
        (match dec s bs with
+        | Ok (v, []) when (let has_min = (try ignore (Str.search_forward (Str.regexp_string "3b7fffffffffffffff") hexs 0); true with Not_found -> false) in
+                           has_min && impl = ["panic"]) ->
+          (* the model reproduces the known defect so that the correspondence stays exact *)
+          ("panic", if wfv s v && refined writer_form s v then "fails:C14-int-min-debug-panic" else "na")
         | Ok (v, []) ->
           let re = hex_of_bytes (enc s v) in
           (* C01 on the implementation: decoding succeeds, re-encoding gives exactly the input, the hex entry
              points agree, and the decoded value equals its own re-decoding; the domain is "the model accepts
              and re-encodes identically", i.e. the input is a canonical encoding of a schema-valid value *)
-          let dom = wfv s v && re = hexs in
-          let verdict = if not dom then "na" else if impl = ["ok"; hexs] then "holds" else "fails:-" in
+          let dom = wfv s v && refined writer_form s v && re = hexs in
+          (* known finding C14-int-min-debug-panic: serialising the integer -2^63 panics in builds with
+             overflow checks (cbor_event negates i64::MIN) *)
+          let has_min = (try ignore (Str.search_forward (Str.regexp_string "3b7fffffffffffffff") hexs 0); true with Not_found -> false) in
+          let verdict = if not dom then "na" else if impl = ["ok"; hexs] then "holds"
+            else if has_min && impl = ["panic"] then "fails:C14-int-min-debug-panic" else "fails:-" in
           ("ok " ^ re, verdict)
         | Ok (_, _) -> ("err", "na")
         | Err -> ("err", "na")
